@@ -197,7 +197,15 @@ Runner op_runner(bool single, bool runtime) {
   auto op = std::make_shared<std::optional<typename Tr::O>>();
   r.run = [cur, op](const Plan& pl, CaseSink& s) {
     if (cur->first != pl.lo || cur->second != pl.hi) { op->emplace(Tr::make(pl.lo, pl.hi)); *cur = {pl.lo, pl.hi}; }
-    exercise_op<Tr>(**op, pl, s);
+    // the operator object is used in place, through a copy, through an assigned copy or through a moved copy in turn:
+    // a copy must compute what its source computes
+    static unsigned turn = 0;
+    switch (turn++ % 4) {
+      case 1: { typename Tr::O c(**op); exercise_op<Tr>(c, pl, s); break; }
+      case 2: { typename Tr::O c = Tr::make(pl.lo, pl.hi); c = **op; exercise_op<Tr>(c, pl, s); break; }
+      case 3: { typename Tr::O c(**op); typename Tr::O d(std::move(c)); exercise_op<Tr>(d, pl, s); break; }
+      default: exercise_op<Tr>(**op, pl, s); break;
+    }
   };
   if constexpr (Tr::has_setchar) {
     r.setchar = [single](const Plan& pl, const bj::object& once, CaseSink& s) {
